@@ -100,6 +100,13 @@ pub fn to_json(s: &[Decision], img: &FsImage) -> Value {
                         json!({ "op": "disk_full", "errno": "ENOSPC", "after_bytes": at })
                     }
                 }
+                Decision::EnvJobs { name, n } => {
+                    if *n == 0 {
+                        json!({ "op": "env_var", "name": name, "set": false })
+                    } else {
+                        json!({ "op": "env_var", "name": name, "set": true, "value": n.to_string() })
+                    }
+                }
                 Decision::SpawnFault { at } => {
                     if *at == crate::world::NO_FAULT {
                         json!({ "op": "thread_spawn_error", "errno": "none" })
@@ -118,7 +125,7 @@ pub fn to_json(s: &[Decision], img: &FsImage) -> Value {
                     if *at == crate::world::NO_FAULT {
                         json!({ "op": "read_error", "errno": "none" })
                     } else {
-                        json!({ "op": "read_error", "errno": "EIO", "at_read": at })
+                        json!({ "op": "read_error", "errno": "EIO", "at_read": at & !crate::world::PERSISTENT_BIT, "persistent": at & crate::world::PERSISTENT_BIT != 0 })
                     }
                 }
             })
@@ -200,9 +207,14 @@ pub fn from_json(v: &Value, img: &FsImage) -> Result<Vec<Decision>, String> {
             }),
             Some("read_error") => {
                 if let Some(at) = e["at_read"].as_u64() {
-                    out.push(Decision::ReadFault { at });
+                    let p = if e["persistent"].as_bool() == Some(true) { crate::world::PERSISTENT_BIT } else { 0 };
+                    out.push(Decision::ReadFault { at: at | p });
                 }
             }
+            Some("env_var") => out.push(Decision::EnvJobs {
+                name: e["name"].as_str().unwrap_or("").to_string(),
+                n: e["value"].as_str().and_then(|s| s.parse().ok()).unwrap_or(0),
+            }),
             Some("thread_spawn_error") => {
                 if let Some(at) = e["at_spawn"].as_u64() {
                     out.push(Decision::SpawnFault { at });
